@@ -340,17 +340,21 @@ func (d *Disk) MMap(sz int) ([]byte, error) {
 	return v, nil
 }
 
-// MUnmap implements vfs.File. Old views are poisoned.
+// MUnmap implements vfs.File. Unmapped views are poisoned, so a use after
+// unmap shows up as garbage.
 func (d *Disk) MUnmap(b []byte) error {
 	d.mu.Lock()
 	defer d.mu.Unlock()
-	if d.view != nil && len(b) > 0 && len(d.view) > 0 && &b[0] == &d.view[0] {
-		if d.Poison {
-			for i := range d.view {
-				d.view[i] = 0xDB
-			}
-		}
+	if len(b) == 0 {
+		return nil
+	}
+	if d.view != nil && len(d.view) > 0 && &b[0] == &d.view[0] {
 		d.view = nil
+	}
+	if d.Poison {
+		for i := range b {
+			b[i] = 0xDB
+		}
 	}
 	return nil
 }
